@@ -6,6 +6,11 @@ Open Scope list_scope.
 Section O.
 Variable c : config.
 Hypothesis Hsafe : pending_owner_safe (vr c) = true.
+(* the invariant, with coverage and uniqueness conditional on an exact same-execution look-up *)
+Local Notation K := (JobOnce.K (ctx_exact (vr c))).
+
+Lemma cse_eff_eq s key ctx : ctx_exact (vr c) = true -> cse_eff c s key ctx = cse_lookup c s key ctx.
+Proof. intros Hexact. unfold cse_eff. rewrite Hexact. reflexivity. Qed.
 
 Lemma key_eqb_spec a b : key_eqb a b = true <-> a = b.
 Proof.
@@ -61,20 +66,20 @@ Proof.
     destruct (a2 _ _ Hin) as (z & Hz & Hk & Hs & Hnz). destruct (Hget' _ _ Hz) as (z' & Hz' & E).
     apply kv_fields in E. destruct E as (E1 & E2 & E3 & E4 & E5).
     exists z'. rewrite HgS. unfold kc in *. repeat split; auto; congruence.
-  - intros k z' Hz' Hn Hs. rewrite HgS in Hz'. destruct (Hget _ _ Hz') as (z & Hz & E). apply kv_fields in E.
+  - intros Hb k z' Hz' Hn Hs. rewrite HgS in Hz'. destruct (Hget _ _ Hz') as (z & Hz & E). apply kv_fields in E.
     destruct E as (E1 & E2 & E3 & E4 & E5).
     assert (Ek : kc z' = kc z) by (unfold kc; congruence). rewrite Ek.
     destruct (Nat.eq_dec k j) as [->|Hne].
     + rewrite Hx in Hz. injection Hz as <-. right. exists o. apply Hrecj. apply (a1 j x Hx). congruence.
-    + destruct (a3 k z Hz) as [Hin|(o' & Hin)]; try congruence.
+    + destruct (a3 Hb k z Hz) as [Hin|(o' & Hin)]; try congruence.
       * left. rewrite Hpend. apply filter_In. split; [exact Hin|]. unfold flt. simpl.
         destruct (Nat.eqb_spec k j); [contradiction|]. now rewrite andb_false_r.
       * right. exists o'. auto.
-  - intros j1 j2 y1 y2 H1 H2 N1 N2 S1 S2 Ek. rewrite HgS in H1, H2.
+  - intros Hb j1 j2 y1 y2 H1 H2 N1 N2 S1 S2 Ek. rewrite HgS in H1, H2.
     destruct (Hget _ _ H1) as (x1 & Hx1' & E1). destruct (Hget _ _ H2) as (x2 & Hx2' & E2).
     apply kv_fields in E1. apply kv_fields in E2.
     destruct E1 as (P1 & P2 & P3 & P4 & P5). destruct E2 as (Q1 & Q2 & Q3 & Q4 & Q5).
-    apply (a4 j1 j2 x1 x2 Hx1' Hx2'); try congruence. unfold kc in *. congruence.
+    apply (a4 Hb j1 j2 x1 x2 Hx1' Hx2'); try congruence. unfold kc in *. congruence.
 Qed.
 
 Lemma K_notify o s sub : K s -> K (notify_sub c o s sub).
@@ -128,12 +133,12 @@ Proof.
            { intros k Hk. unfold s2. rewrite getj_setj_other; auto. }
            assert (Hlk : lookup_pending s2 (jkey x, jctx x) = lookup_pending s (jkey x, jctx x)) by reflexivity.
            (* no other cse job with this key was ever submitted *)
-           assert (Hfresh : jnocse x = false -> forall k z, k <> j -> getj s k = Some z -> jnocse z = false ->
-                     1 <= jsubmits z -> kc z <> kc x).
-           { intros Hn k z Hk Hz Hnz Hsz Ek. rewrite Hn in Etwin.
-             destruct (k_cov _ Ks k z Hz Hnz Hsz) as [Hin|(o & Hin)].
+           assert (Hfresh : ctx_exact (vr c) = true -> jnocse x = false -> forall k z, k <> j -> getj s k = Some z ->
+                     jnocse z = false -> 1 <= jsubmits z -> kc z <> kc x).
+           { intros Hb Hn k z Hk Hz Hnz Hsz Ek. rewrite Hn in Etwin.
+             destruct (k_cov _ _ Ks Hb k z Hz Hnz Hsz) as [Hin|(o & Hin)].
              - rewrite Ek in Hin. apply lookup_pending_in in Hin. unfold kc in Hin. simpl in Hin. congruence.
-             - rewrite Ek in Hin. unfold kc in Hin. apply cse_lookup_in in Hin. rewrite Hn in Ehit.
+             - rewrite Ek in Hin. unfold kc in Hin. apply cse_lookup_in in Hin. rewrite Hn, (cse_eff_eq _ _ _ Hb) in Ehit.
                destruct (cse_lookup c s (jkey x) (jctx x)) as [[?|?]|]; try discriminate; congruence. }
            assert (HP : (if jnocse x then pending s2
                          else (jkey x, jctx x, j) :: filter (fun p => negb (key_eqb (fst p) (jkey x, jctx x))) (pending s2))
@@ -145,7 +150,7 @@ Proof.
              destruct (key_eqb (fst p) (jkey x, jctx x)); [discriminate|]. simpl. f_equal. auto. }
            match goal with |- K (add_submit (set_pending _ ?P) _) =>
              change (K (add_submit (set_pending s2 P) j)); replace P with (if jnocse x then pending s else (jkey x, jctx x, j) :: pending s) by (symmetry; exact HP) end.
-           apply (K_kframe (set_pending s2 (if jnocse x then pending s else (jkey x, jctx x, j) :: pending s)));
+           apply (K_kframe _ (set_pending s2 (if jnocse x then pending s else (jkey x, jctx x, j) :: pending s)));
              [repeat split|].
            destruct Ks as [a1 a2 a3 a4].
            constructor; simpl pending; simpl recorded; change (getj (set_pending s2 _)) with (getj s2).
@@ -163,18 +168,18 @@ Proof.
                  --- exfalso. injection Heq as -> ->. destruct (a2 _ _ Hin) as (z & Hz & Hk & Hs & Hnz).
                      rewrite Hx in Hz. injection Hz as <-. congruence.
                  --- injection Heq as -> ->. exists y. split; [exact Hy|]. split; [reflexivity|]. simpl. split; [lia|exact Hnx].
-           ++ intros k z Hz Hn Hs. destruct (Nat.eq_dec k j) as [->|Hk].
+           ++ intros Hb k z Hz Hn Hs. destruct (Nat.eq_dec k j) as [->|Hk].
               ** rewrite Hy in Hz. injection Hz as <-. left. change (kc y) with (jkey x, jctx x).
                  simpl in Hn. rewrite Hn. now left.
-              ** rewrite Hoth in Hz by assumption. destruct (a3 k z Hz Hn Hs) as [Hin|Hr]; [|right; exact Hr].
+              ** rewrite Hoth in Hz by assumption. destruct (a3 Hb k z Hz Hn Hs) as [Hin|Hr]; [|right; exact Hr].
                  left. destruct (jnocse x); [exact Hin|now right].
-           ++ intros j1 j2 y1 y2 H1 H2 N1 N2 S1 S2 Ek.
+           ++ intros Hb j1 j2 y1 y2 H1 H2 N1 N2 S1 S2 Ek.
               destruct (Nat.eq_dec j1 j) as [->|Hk1]; destruct (Nat.eq_dec j2 j) as [->|Hk2]; auto.
               ** rewrite Hy in H1. injection H1 as <-. rewrite Hoth in H2 by assumption. exfalso.
-                 simpl in N1. apply (Hfresh N1 j2 y2 Hk2 H2 N2 S2). symmetry. exact Ek.
+                 simpl in N1. apply (Hfresh Hb N1 j2 y2 Hk2 H2 N2 S2). symmetry. exact Ek.
               ** rewrite Hy in H2. injection H2 as <-. rewrite Hoth in H1 by assumption. exfalso.
-                 simpl in N2. apply (Hfresh N2 j1 y1 Hk1 H1 N1 S1). exact Ek.
-              ** rewrite Hoth in H1, H2 by assumption. eapply a4; eauto.
+                 simpl in N2. apply (Hfresh Hb N2 j1 y1 Hk1 H1 N1 S1). exact Ek.
+              ** rewrite Hoth in H1, H2 by assumption. eapply (a4 Hb); eauto.
 Qed.
 
 Lemma K_init : K init.
@@ -197,10 +202,10 @@ Proof.
     + intros k z Hz Hn. destruct (Hg _ _ Hz) as [->|Hz']; [|eauto]. simpl in *.
       destruct prov; auto. rewrite orb_true_r in Hn. discriminate.
     + intros k k0 Hin. destruct (a2 _ _ Hin) as (z & Hz & R). exists z. split; auto.
-    + intros k z Hz Hn Hs. destruct (Hg _ _ Hz) as [->|Hz']; [simpl in Hs; lia|eauto].
-    + intros j1 j2 y1 y2 H1 H2 N1 N2 S1 S2 Ek.
+    + intros Hb k z Hz Hn Hs. destruct (Hg _ _ Hz) as [->|Hz']; [simpl in Hs; lia|eapply (a3 Hb); eauto].
+    + intros Hb j1 j2 y1 y2 H1 H2 N1 N2 S1 S2 Ek.
       destruct (Hg _ _ H1) as [->|H1']; [simpl in S1; lia|]. destruct (Hg _ _ H2) as [->|H2']; [simpl in S2; lia|].
-      eapply a4; eauto.
+      eapply (a4 Hb); eauto.
   - cbn [step]. destruct (nth_error (queue s) _) as [[j|j|j e|j v]|]; auto.
     + apply K_exec_job. eapply K_kframe; [|exact Ks]. repeat split.
     + unfold done_job. set (s1 := maybe_release c (pop_queue s _) j).
